@@ -1211,7 +1211,18 @@ def gen_C16(rng, tier):
 GRAMMAR_ALPHABET = list("0123456789+-*^() aXY")
 
 
+import re as _re
+_EXPO = _re.compile(r"(?<=[A-Za-z^])(\d{4,19})")
+
+
 def rand_string(rng, desc, maxlen=12):
+    """a candidate input of the string constructors. Digit runs that would be read as an exponent are kept
+    at <= 3 digits or >= 20 digits: exponents in between are resource-bound on both sides (the library
+    allocates a dense slice of that length — recorded finding PF-21 — and the list-based model is quadratic)."""
+    return _EXPO.sub(lambda m: m.group(1)[:3], _rand_string(rng, desc, maxlen))
+
+
+def _rand_string(rng, desc, maxlen=12):
     k = rng.random()
     if k < 0.4:
         return "".join(rng.choice(GRAMMAR_ALPHABET) for _ in range(rng.randrange(0, maxlen)))
@@ -1240,7 +1251,10 @@ def gen_C17(rng, tier):
         quot = rng.random() < 0.3
         if quot:
             uspec, _ = umod_spec(rng, desc)
-        h = H(rng, desc, uspec=uspec, bspec=bspec(rng), snap=True)
+        bgens = "-"
+        if rng.random() < 0.25:
+            bgens = "1:1:1/0:0:1;0:2:1"          # a small bivariate quotient ring as ring 1
+        h = H(rng, desc, uspec=uspec, bspec=bspec(rng, gens=bgens), snap=True)
         maybe_tables(h, rng, prob=0.4)
         good_e = [h.elem(), h.elem()]
         z = h.elem("0")
@@ -1283,6 +1297,15 @@ def gen_C17(rng, tier):
         h.ops.append("%s,%s=quorem %s %s" % (h.newu(), h.newu(), f0, g2))
         h.ops.append("%s=gcd %s %s" % (h.newu(), f0, g2))
         h.ops.append("embed %s @2 0" % f0 if rng.random() < 0.2 else "obs %s" % f0)
+        if quot:
+            # a ring and its own quotient ring (they share the underlying ring object) are different rings
+            f1 = h.upoly(deg=2, ring=1)
+            for op in rng.sample(["plus", "minus", "times"], 2):
+                h.ops.append("%s=%s %s %s" % (h.newu(), op, f0, f1))
+                h.ops.append("%s=%s %s %s" % (h.newu(), op, f1, f0))
+            c = h.newu(); h.ops.append("%s=copy %s" % (c, f1)); h.ops.append("%s %s %s" % (rng.choice(["add", "sub", "mult"]), c, f0))
+            h.ops.append("%s,%s=quorem %s %s" % (h.newu(), h.newu(), f0, f1))
+            h.ops.append("%s=gcd %s %s" % (h.newu(), f1, f0))
         upool = [f0, badp, h.upoly(deg=2, ring=0)]
         for _ in range(rng.randrange(2, 9)):
             a, b = rng.choice(upool), rng.choice(upool)
@@ -1309,6 +1332,14 @@ def gen_C17(rng, tier):
         h.ops.append("%s,%s=quorem %s %s" % (h.newb(), h.newb(), q0, q2))
         h.ops.append("%s=ideal@0 %s" % (h.newi(), zq))
         h.ops.append("%s=ideal@0 %s %s" % (h.newi(), q0, q2))
+        if bgens != "-":
+            q1r = h.bpoly(nterms=2, box=2, ring=1)
+            for op in rng.sample(["plus", "minus", "times"], 2):
+                h.ops.append("%s=%s %s %s" % (h.newb(), op, q0, q1r))
+                h.ops.append("%s=%s %s %s" % (h.newb(), op, q1r, q0))
+            c = h.newb(); h.ops.append("%s=copy %s" % (c, q1r)); h.ops.append("%s %s %s" % (rng.choice(["add", "sub", "mult"]), c, q0))
+            h.ops.append("%s,%s=quorem %s %s" % (h.newb(), h.newb(), q0, q1r))
+            h.ops.append("%s=ideal@0 %s" % (h.newi(), q1r))
         bpool = [q0, badq, h.bpoly(nterms=2, box=3, ring=0)]
         for _ in range(rng.randrange(2, 9)):
             a, b = rng.choice(bpool), rng.choice(bpool)
